@@ -52,9 +52,26 @@ def gen_recvonly(rng):
     return S.case_of(d)
 
 
+def gen_aborted(rng):
+    """an idle connection; ONE client datagram reaches the server only as a copy from a foreign address
+    (the server migrates there), the client is cut off until path validation has failed and the server has
+    fallen back - and then the client really moves. The aborted path and the real one must not share
+    bookkeeping (packets sent towards the foreign address are declared lost much later)."""
+    ka = rng.choice([2000, 3000])
+    d = {"SEED": rng.range(1, 1 << 30), "DELAY_MIN": 10000, "DELAY_MAX": 10000, "NBIDI": 1, "NUNI": 0,
+         "STREAM_BYTES": 3000, "ECHO_BYTES": rng.choice([0, 3000]), "WRITE_CHUNK": 1200, "READ_MAX": 100000,
+         "IDLE_MS": 30000, "MAX_TIME": 16_000_000, "KEEPALIVE_MS": ka, "CLOSER": 3,
+         "SPOOF_FRESH_AT": rng.range(1_000_000, 2_500_000), "SPOOF_FRESH_BLACKOUT": rng.choice([1_500_000, 2_500_000]),
+         "MIGRATE_KIND": rng.below(2), "SERVER_STREAMS": rng.below(2), "GSO": rng.choice([1, 2])}
+    d["MIGRATE_AT"] = d["SPOOF_FRESH_AT"] + ka + d["SPOOF_FRESH_BLACKOUT"] - rng.range(0, 500_000)
+    return S.case_of(d)
+
+
 def gen_case(rng):
     if rng.chance(1, 5):
         return gen_blackout(rng)
+    if rng.chance(1, 10):
+        return gen_aborted(rng)
     if rng.chance(1, 8):
         return gen_recvonly(rng)
     d = {"SEED": rng.range(1, 1 << 30)}
@@ -121,7 +138,8 @@ def gen(rng, n):
 
 
 def project(case, outs):
-    return S.project(outs, TAGS)
+    # the per-datagram probes (record 18) count as probes here: every state change is then ONE model step
+    return [([8] + r[1:]) if r[0] == 18 else r for r in S.project(outs, TAGS | {18})]
 
 
 def _remote_changes(outs):
